@@ -185,6 +185,21 @@ impl SvgBuilder {
         (border_size, (border_size - gap).round())
     }
 
+    /// Escapes the characters that cannot appear verbatim in a double-quoted XML attribute
+    fn escape_attribute(value: &str) -> String {
+        let mut out = String::with_capacity(value.len());
+        for c in value.chars() {
+            match c {
+                '&' => out.push_str("&amp;"),
+                '<' => out.push_str("&lt;"),
+                '>' => out.push_str("&gt;"),
+                '"' => out.push_str("&quot;"),
+                _ => out.push(c),
+            }
+        }
+        out
+    }
+
     fn image(&self, n: usize) -> String {
         if self.image.is_none() {
             return String::new();
@@ -247,7 +262,7 @@ impl SvgBuilder {
             placed_coord.0 + (border_size - image_size) / 2f64,
             placed_coord.1 + (border_size - image_size) / 2f64,
             image_size,
-            image
+            Self::escape_attribute(image)
         ));
 
         out
